@@ -2,6 +2,7 @@ package main
 
 import (
 	"fmt"
+	"go/token"
 	"go/types"
 	"strings"
 
@@ -40,6 +41,97 @@ func runC07(c *Ctx) {
 	c07ForIn(c, es)
 	c07Dispatch(c)
 	returnValuePresence(c, "R10")
+	parsedNodeFidelity(c, "R11")
+}
+
+// parsedNodeFidelity: the statement parser builds each statement node from the pieces it has just
+// parsed; it does not take parsed statements apart and re-assemble them (a peephole such as folding
+// `if (a) { if (b) x }` into `if (a && b) x` changes which `if` an `else` belongs to).
+func parsedNodeFidelity(c *Ctx, rule string) {
+	p := c.P
+	c.note("%s parsed-node-fidelity: in the statement-level parser functions every Expr / Statement stored into a field of a Statement node is the result of a parser call made there (or a node built there whose own fields satisfy the same condition, or nil); it is never read out of a field of an already parsed node.", rule)
+	n := 0
+	for _, fn := range p.Funcs {
+		if !p.InLang(fn) || p.inTestFile(fn) || fn.Signature.Recv() == nil || !strings.Contains(fn.Signature.Recv().Type().String(), "Parser") {
+			continue
+		}
+		var bad func(v ssa.Value, d int, seen map[ssa.Value]bool) string
+		bad = func(v ssa.Value, d int, seen map[ssa.Value]bool) string {
+			if v == nil || seen[v] || d > 12 {
+				return ""
+			}
+			seen[v] = true
+			switch x := v.(type) {
+			case *ssa.MakeInterface:
+				return bad(x.X, d+1, seen)
+			case *ssa.ChangeInterface:
+				return bad(x.X, d+1, seen)
+			case *ssa.TypeAssert:
+				return bad(x.X, d+1, seen)
+			case *ssa.Extract:
+				return bad(x.Tuple, d+1, seen)
+			case *ssa.Phi:
+				for _, e := range x.Edges {
+					if w := bad(e, d+1, seen); w != "" {
+						return w
+					}
+				}
+			case *ssa.UnOp:
+				if x.Op != token.MUL {
+					return ""
+				}
+				if fa, ok := x.X.(*ssa.FieldAddr); ok {
+					if sf, ok := fieldOfAddr(fa); ok && sf.Struct != nil && isNodeType(sf.Struct) && isNodeType(x.Type()) {
+						return "read from " + sf.Struct.Obj().Name() + "." + sf.Name + " of a parsed node"
+					}
+				}
+				if a, ok := x.X.(*ssa.Alloc); ok {
+					for _, r := range referrersOf(a) {
+						if st, ok := r.(*ssa.Store); ok && st.Addr == ssa.Value(a) {
+							if w := bad(st.Val, d+1, seen); w != "" {
+								return w
+							}
+						}
+					}
+				}
+				if ia, ok := x.X.(*ssa.IndexAddr); ok && isNodeType(x.Type()) {
+					return bad(ia.X, d+1, seen)
+				}
+			case *ssa.Alloc:
+				// a node built here: its own node-typed fields
+				for _, r := range referrersOf(x) {
+					fa, ok := r.(*ssa.FieldAddr)
+					if !ok {
+						continue
+					}
+					for _, rr := range referrersOf(fa) {
+						if st, ok := rr.(*ssa.Store); ok && st.Addr == ssa.Value(fa) && isNodeType(st.Val.Type()) {
+							if w := bad(st.Val, d+1, seen); w != "" {
+								return w
+							}
+						}
+					}
+				}
+			}
+			return ""
+		}
+		allInstrs(fn, func(in ssa.Instruction) {
+			a, ok := in.(*ssa.Alloc)
+			if !ok {
+				return
+			}
+			nt := namedOf(a.Type().(*types.Pointer).Elem())
+			if nt == nil || !strings.HasPrefix(nt.Obj().Name(), "Statement") || nt.Obj().Pkg() != p.Lang.Types {
+				return
+			}
+			n++
+			w := bad(a, 0, map[ssa.Value]bool{})
+			c.check(w == "", rule, "parsed-node-fidelity "+nt.Obj().Name()+" in "+shortName(fn), p.InstrPos(a), "built from the pieces just parsed", "a "+nt.Obj().Name()+" node is assembled from a part "+w+": the parser takes a parsed statement apart and re-assembles it, so the tree no longer mirrors the program text (an `else`, `break` or position then attaches to a different construct)")
+		})
+	}
+	if n < 8 {
+		c.undecided(rule, "parsed-node-fidelity instance-floor", "", fmt.Sprintf("%d statement nodes built in parser methods, 10 expected", n))
+	}
 }
 
 // R1 loop consumption
